@@ -23,6 +23,7 @@ EXPLANATION = ('extracted thread automata + z3 bounded model checking (QF_BV): a
 extra_coverage = sched.extra_coverage
 Q1 = 'a task is executed more than once'
 Q2 = 'final status map differs from F(graph, outcomes)'
+Q3 = 'the run never reaches a final state for every task: nothing can move while some thread has not finished'
 NAMES = ['WAITING', 'PENDING', 'DONE', 'FAILED', 'SKIPPED']
 
 
@@ -59,7 +60,12 @@ def confirm_map(cfg, rp, kinds, extra):
     return None
 
 
-CONFIRM = {Q1: confirm_twice, Q2: confirm_map}
+def confirm_stuck(cfg, rp, kinds, extra):
+    from checks import C03
+    return C03.confirm(cfg, rp, kinds, extra)
+
+
+CONFIRM = {Q1: confirm_twice, Q2: confirm_map, Q3: confirm_stuck}
 
 
 def prop(an, prod):
@@ -76,7 +82,8 @@ def prop(an, prod):
     return {'init': lambda prod: props.init_common(prod, empty_env=True),
             'queries': [(Q1, lambda u: u.at(u.K, twice), confirm_twice),
                         # terminated states persist (stuttering): the last step sees the final map of every run that ended
-                        (Q2, lambda u: u.at(u.K, z3.And(done, z3.Not(good))), confirm_map)]}
+                        (Q2, lambda u: u.at(u.K, z3.And(done, z3.Not(good))), confirm_map),
+                        (Q3, lambda u: u.at(u.K, props.deadlock(prod)), confirm_stuck)]}
 
 
 def _job(n, hard, soft, w, tier, seed=0):
